@@ -449,12 +449,15 @@ CLAIMED = {
              "in integer arithmetic (an oracle written from the URDF definition, not from the importer) and checks the oracle's own invariants. "
              "For every final state the harness writes the URDF, calls system_from_urdf with the requested configuration and velocities (entries "
              "for zero coordinates omitted; floating joints as 6- and 7-vectors) and compares every imported body's r_OP, A_IB, v_P, B_Omega with "
-             "the spec, System.g / g_dot at the initial state with zero and Revolute.angle / angle_dot with the request.",
-        note="Single joints: 3 roots x 6 types x 6 axes x 8 origin rotations x 3 coordinates x 2 rates; trees: 3 roots x 7^3 joint menus x 6 parent "
-             "assignments; a deterministic stride thins both families (quick: 365 + 101 robots, thorough: ~1500 + ~700). Octahedral rotations only "
-             "(exact integer kinematics). Planar joints with axis z and (x, y) in the joint frame; floating joints without relative angular "
-             "velocity; a non-floating root at rest.",
-        technique="TLA+ exact-arithmetic forward-kinematics spec + TLC enumeration, replay into the importer",
+             "the spec, System.g / g_dot at the initial state with zero and Revolute.angle / angle_dot with the request. UrdfFKQ.tla restates the "
+             "same semantics over exact rationals (angles with rational sine and cosine: quarter turns and the 3-4-5 angles; rational unit axes such "
+             "as (3,4,0)/5 and (1,2,2)/3; Rodrigues rotations) for single joints and two-joint chains, replayed the same way.",
+        note="UrdfFK: single joints 3 roots x 6 types x 6 axes x 8 origin rotations x 3 coordinates x 2 rates; trees: 3 roots x 7^3 joint menus x 6 parent "
+             "assignments; UrdfFKQ: single joints 3 roots x 6 types x 5 axes x 7 origin rotations x 3 coordinates x 2 rates, chains from a menu of 7; a "
+             "deterministic stride thins all families (quick: 365 + 95 + 269 + 74 robots). Planar joints with axis z and (x, y) in the joint frame; "
+             "floating joints carry a relative angular velocity in the joint frame, and have no displacement when they do (URDF does not fix the reading "
+             "of the linear part there); the <axis> element is omitted in every second case where it equals the URDF default; a non-floating root at rest.",
+        technique="TLA+ exact-arithmetic forward-kinematics specs (integer and rational) + TLC enumeration, replay into the importer",
         ref="5/C28",
     ),
     "C29": dict(
